@@ -10,6 +10,7 @@
    Model: Model/Reap.lean; invariants: Proofs/Reap{Inv,Acct,K}.lean; tie to the real code: harness/u_reap.c replays
    schedules one critical section at a time on the real reap.c (vlib/props/c10_reap.py). -/
 import NngModel.Proofs.ReapK
+import NngModel.Proofs.ReapTerm
 import NngModel.Model.ReapObs
 namespace Nng.C10Reap
 open Nng.Reap
@@ -204,6 +205,40 @@ theorem fini_loses_nothing (nl : Nat) (progs : List (List Op)) (sched : List Tid
   have hk := reach_invK nl progs sched hr
   obtain ⟨h1, _, h3⟩ := quiet_of_empty (reach_inv nl progs sched) (reach_acct nl progs sched) (hk.finEmpty hw)
   exact ⟨h1, h3⟩
+
+/-! ### (d) termination: no scheduler can keep the reaper layer busy for ever -/
+
+/-- every step of a thread that can move strictly decreases the potential `mu` (Proofs/ReapTerm.lean; `nc` = number of
+    clients): no livelock between nni_reap, the worker's passes, drainers that re-sleep and the join -/
+theorem effective_step_decreases (nl : Nat) (progs : List (List Op)) (sched : List Tid) (t : Tid)
+    (he : enabled (reach nl progs sched) t = true) :
+    mu progs.length (step (reach nl progs sched) t) < mu progs.length (reach nl progs sched) := by
+  refine mu_step progs.length ?_ he
+  have : ∀ (s : State) (sc : List Tid), (run s sc).clients.length = s.clients.length := by
+    intro s sc
+    induction sc generalizing s with
+    | nil => rfl
+    | cons a r ih => simp only [run, List.foldl_cons] at ih ⊢; rw [ih, step_clients_length]
+  simp [reach, this, init]
+
+/-- the potential of the initial state, in closed form: a wake-up of the worker plus the credit of every call -/
+theorem initial_potential (nl : Nat) (progs : List (List Op)) :
+    mu progs.length (init nl progs) = (progs.length + 1) + (progs.map (progPot progs.length)).sum := by
+  have hl : ((List.replicate nl ({} : RList)).map (listPot progs.length)).sum = 0 := by
+    induction nl with
+    | zero => rfl
+    | succ k ih => simp [List.replicate_succ, listPot] at ih ⊢
+  simp only [mu, init, hl, workerPot, wP, List.map_map]
+  have : (clientPot progs.length ∘ Client.ready) = progPot progs.length := by funext p; rfl
+  rw [this]; omega
+
+/-- ANY schedule, fair or not, contains at most that many steps in which the chosen thread could move: after them
+    nothing is enabled any more, and then (`stuck_only_when_finished`) every drain / fini call has returned -/
+theorem steps_bounded (nl : Nat) (progs : List (List Op)) (sched : List Tid) :
+    effSteps (init nl progs) sched ≤ (progs.length + 1) + (progs.map (progPot progs.length)).sum := by
+  have := effSteps_le progs.length (init nl progs) (by simp [init]) sched
+  rw [initial_potential] at this
+  omega
 
 /-! ### the judge of Model/ReapObs.lean accepts every contract-respecting run of the model -/
 
